@@ -96,6 +96,13 @@ def check(ctx, report):
     # sent (rule shared with C03.R6, on the SSH modules)
     from .c03 import nested_lengths
     nested_lengths(ctx, report, RULE='C16.R7', scope='cryptoparser/ssh/')
+    # ---- R9: the blob that is hashed is the blob that was parsed only when every structure of the key module writes what it holds as
+    # it holds it: sequences in stored (= wire) order, attributes themselves and no constant in their place (shared with C07.R13)
+    from .c11 import fields_written_as_stored
+    fields_written_as_stored(ctx, report, RULE='C16.R9', kinds=None, what=('in place of attribute', 'items in wire order'),
+                             modules={'cryptoparser.ssh.key'},
+                             title='structures of host keys and certificates are composed as held: items in stored order, no constant in place of an attribute')
+    report.floor('C16.R9', 100, 'fields of host key / certificate structures')
     # ---- R4: the blob that is hashed is the RFC 4253 / PROTOCOL.certkeys encoding (layout comparison shared with C07.R1)
     report.rule('C16.R4', 'composer of every host key / certificate class equals the specified key blob layout')
     from .. import speccheck
